@@ -161,6 +161,26 @@ def gen_cases(tier, rng):
         for fm in forms:
             ctx = "data" if (v % 3) else "dq"
             cases.append((mk(ctx, fm + "z"), "numeric"))
+    # the u32 accumulator around its wrap points: values k*2^32 + small, the neighbourhood of 2^32, and decimal strings
+    # whose first ten digits are 4294967290..4294967299 (the multiply fits, the add wraps) continued by more digits
+    wrap = set()
+    for k in (1, 2, 3, 10, 16, 2 ** 32):
+        for small in (0, 1, 2, 3, 9, 0x41, 0x10FFFF, 0x110000):
+            wrap.add("&#%d;" % (k * 2 ** 32 + small))
+            wrap.add("&#x%x;" % (k * 2 ** 32 + small))
+    for v in range(2 ** 32 - 12, 2 ** 32 + 12):
+        wrap.add("&#%d;" % v)
+        wrap.add("&#x%X;" % v)
+    for v10 in range(4294967290, 4294967300):
+        for suf in ("", "0", "5", "65", "665", "0000065"):
+            wrap.add("&#%d%s;" % (v10, suf))
+            wrap.add("&#%d%s" % (v10, suf))
+    for v16 in range(0xFFFFFFF0, 0x100000000, 3):
+        for suf in ("", "0", "41", "041"):
+            wrap.add("&#x%x%s;" % (v16, suf))
+    for body in sorted(wrap):
+        for ctx in ("data", "dq"):
+            cases.append((mk(ctx, body + "z"), "wrap"))
     # overflow lengths and malformed numerics
     for body in ["&#", "&#;", "&#x", "&#x;", "&#xg", "&#a", "&#0;", "&#00000000000000000000065;", "&#x" + "0" * 30 + "41;",
                  "&#" + "9" * 10, "&#" + "9" * 11, "&#" + "9" * 20 + ";", "&#x" + "f" * 8, "&#x" + "f" * 9 + ";", "&#x110000",
